@@ -65,27 +65,106 @@ func tokTypeName(p *parser.OpenFGAParser, t int) string {
 	return "T" + strconv.Itoa(t)
 }
 
-// parseTree lexes and parses already cleaned text with the real generated lexer/parser and
-// returns the tree, the token list (all channels) and the errors ANTLR reported.
-func parseTree(cleaned string) (tree string, toks []tokInfo, errs []synErr) {
+// parsed is everything the real generated lexer and parser say about one cleaned text.
+type parsed struct {
+	Tree     string
+	Toks     []tokInfo // all channels, EOF last
+	LexErrs  []synErr
+	ParseErr []synErr
+	Errs     []synErr // both, in the order ANTLR reported them
+}
+
+type tagErrs struct {
+	*antlr.DefaultErrorListener
+	all  *[]synErr
+	mine []synErr
+}
+
+func (c *tagErrs) SyntaxError(_ antlr.Recognizer, _ interface{}, line, column int, msg string, _ antlr.RecognitionException) {
+	e := synErr{line - 1, column, msg}
+	*c.all = append(*c.all, e)
+	c.mine = append(c.mine, e)
+}
+
+// parseFull lexes and parses already cleaned text with the real generated lexer/parser.
+func parseFull(cleaned string) parsed {
 	input := antlr.NewInputStream(cleaned)
-	el := &collectErrs{DefaultErrorListener: antlr.NewDefaultErrorListener()}
+	var all []synErr
+	lel := &tagErrs{DefaultErrorListener: antlr.NewDefaultErrorListener(), all: &all}
+	pel := &tagErrs{DefaultErrorListener: antlr.NewDefaultErrorListener(), all: &all}
 	lexer := parser.NewOpenFGALexer(input)
 	lexer.RemoveErrorListeners()
-	lexer.AddErrorListener(el)
+	lexer.AddErrorListener(lel)
 	stream := antlr.NewCommonTokenStream(lexer, antlr.TokenDefaultChannel)
 	p := parser.NewOpenFGAParser(stream)
 	p.RemoveErrorListeners()
-	p.AddErrorListener(el)
+	p.AddErrorListener(pel)
 	root := p.Main()
+	stream.Fill()
+	var toks []tokInfo
 	for _, t := range stream.GetAllTokens() {
 		toks = append(toks, tokInfo{tokTypeName(p, t.GetTokenType()), t.GetText(), t.GetLine(), t.GetColumn(), t.GetChannel()})
 	}
 	var sb strings.Builder
 	dumpTree(p, root, &sb)
-	return sb.String(), toks, el.errs
+	return parsed{Tree: sb.String(), Toks: toks, LexErrs: lel.mine, ParseErr: pel.mine, Errs: all}
 }
 
+// parseTree lexes and parses already cleaned text with the real generated lexer/parser and
+// returns the tree, the token list (all channels) and the errors ANTLR reported.
+func parseTree(cleaned string) (tree string, toks []tokInfo, errs []synErr) {
+	r := parseFull(cleaned)
+	return r.Tree, r.Toks, r.Errs
+}
+
+// frontCorr queues the correspondence of the real lexer and parser with their Lean models for one cleaned
+// text: (1) `lex`: the interpreter of the embedded lexer automaton must produce the same tokens (type,
+// text, line, column, channel; all channels, EOF included) and the same token recognition errors;
+// (2) `parse`: the grammar interpreter, given the real tokens of the default channel, must produce the
+// same parse tree when ANTLR's parser reported no error, and no parse when it reported one.
+func frontCorr(c *Ctx, stream, text, cleaned string, r parsed) {
+	if len(cleaned) > 20000 {
+		c.Dist("front_skipped_long_text")
+		return
+	}
+	items := make([]string, 0, len(r.Toks))
+	for _, t := range r.Toks {
+		items = append(items, L(t.Type, Q(t.Text), strconv.Itoa(t.Line), strconv.Itoa(t.Col), strconv.Itoa(t.Channel)))
+	}
+	errs := make([]string, 0, len(r.LexErrs))
+	for _, e := range r.LexErrs {
+		errs = append(errs, L(strconv.Itoa(e.Line), strconv.Itoa(e.Col), Q(e.Msg)))
+	}
+	c.D.Add("corr:lexer/"+stream, L("lex", Q(cleaned)), L("lex", L(items...), L(errs...)), map[string]any{"dsl": text, "cleaned": cleaned})
+	c.Dist("lexer_texts_compared")
+	if len(r.LexErrs) > 0 {
+		c.Dist("lexer_texts_with_token_recognition_errors")
+	}
+	ptoks := make([]string, 0, len(r.Toks))
+	depth, maxDepth := 0, 0
+	for _, t := range r.Toks {
+		if t.Channel != 0 {
+			continue
+		}
+		ptoks = append(ptoks, L(t.Type, Q(t.Text), strconv.Itoa(t.Line), strconv.Itoa(t.Col)))
+		if t.Type == "LPAREN" {
+			depth++
+			if depth > maxDepth {
+				maxDepth = depth
+			}
+		} else if t.Type == "RPAREN" && depth > 0 {
+			depth--
+		}
+	}
+	want := "(syntax-error)"
+	if len(r.ParseErr) == 0 {
+		want = r.Tree
+		c.Dist("parser_token_lists_accepted")
+	} else {
+		c.Dist("parser_token_lists_rejected")
+	}
+	c.D.Add("corr:grammar-parser/"+stream, L("parse", L(ptoks...)), want, map[string]any{"dsl": text, "cleaned": cleaned, "antlr_parser_errors": r.ParseErr})
+}
 func childIndex(ctx antlr.ParserRuleContext, target interface{}) int {
 	for i, c := range ctx.GetChildren() {
 		if interface{}(c) == target {
